@@ -34,6 +34,7 @@ GENERATORS = {
     "Routed_gen": "translator.gen_routed",
     "CteShape_gen": "translator.gen_cte",
     "SqlValue_gen": "translator.gen_sqlvalue",
+    "Inherit_gen": "translator.gen_inherit",
 }
 
 
